@@ -23,7 +23,7 @@ def run(tier, cases=None):
     if tier in ("quick", "thorough") and len(cases) > 100:
         # parametric families (see families.py): shapes the simplifier rewrites, decided by MIRRun.tla
         fam, rf = progs.run_family((families.fpcmp_cases() if tier == "quick" else families.fpcmp_cases(vals=tuple(families.FPV)))
-                                   + families.alloca_loop_cases())
+                                   + families.alloca_loop_cases() + families.neutral_const_cases() + families.andext_cases()[::5])
         cases = cases + fam
         ck.setc("family_cases", len(fam))
     st = collections.Counter(c["status"] for c in cases)
